@@ -225,17 +225,21 @@ func cmdCheck(args []string) {
 	prop := fs.String("prop", "", "property id")
 	tier := fs.String("tier", "quick", "quick|thorough")
 	seed := fs.Int64("seed", 1, "seed")
-	root := fs.String("root", "/verif", "verif root")
+	root := fs.String("root", "/verif", "verif root (KNOWN_FINDINGS.txt)")
+	outRoot := fs.String("out", "", "output root for evidence, replays and work files (default: root)")
 	workers := fs.Int("workers", 16, "parallel workers")
 	scale := fs.Float64("scale", 1, "multiply case counts (development)")
 	fs.Parse(args)
+	if *outRoot == "" {
+		*outRoot = *root
+	}
 	start := time.Now()
 	jobs := jobsFor(*prop, *tier)
 	if len(jobs) == 0 {
 		fmt.Printf("INCONCLUSIVE property=%s reason=no-jobs-defined\n", *prop)
 		os.Exit(3)
 	}
-	work := filepath.Join(*root, ".work", *prop+"-"+*tier)
+	work := filepath.Join(*outRoot, ".work", *prop+"-"+*tier)
 	os.RemoveAll(work)
 	os.MkdirAll(work, 0o755)
 	defer os.RemoveAll(work)
@@ -324,7 +328,7 @@ func cmdCheck(args []string) {
 	close(ch)
 	wg.Wait()
 	total.Viols = append(total.Viols, crashes...)
-	finish(*prop, *tier, *seed, *root, jobs, total, shapes, inconclusive, time.Since(start))
+	finish(*prop, *tier, *seed, *root, *outRoot, jobs, total, shapes, inconclusive, time.Since(start))
 }
 
 func tailOf(path string, n int) string {
@@ -383,9 +387,9 @@ type replayFile struct {
 	Log      []string `json:"log,omitempty"`
 }
 
-func finish(prop, tier string, seed int64, root string, jobs []JobSpec, total *Summary, shapes map[uint64]bool, inconclusive []string, wall time.Duration) {
+func finish(prop, tier string, seed int64, root, outRoot string, jobs []JobSpec, total *Summary, shapes map[uint64]bool, inconclusive []string, wall time.Duration) {
 	known := loadKnown(filepath.Join(root, "KNOWN_FINDINGS.txt"))
-	replayDir := filepath.Join(root, "replays", prop)
+	replayDir := filepath.Join(outRoot, "replays", prop)
 	var mine, others []ViolRec
 	for _, v := range total.Viols {
 		if forProp(v.Violation, prop) {
@@ -440,7 +444,7 @@ func finish(prop, tier string, seed int64, root string, jobs []JobSpec, total *S
 		}
 	}
 	floorMsg := checkFloor(prop, tier, total)
-	writeEvidence(prop, tier, seed, root, jobs, total, len(shapes), wall, nviol, inconclusive, floorMsg)
+	writeEvidence(prop, tier, seed, outRoot, jobs, total, len(shapes), wall, nviol, inconclusive, floorMsg)
 	fmt.Printf("property=%s tier=%s seed=%d evaluations=%d relevant=%d distinct_shapes=%d wall=%.1fs\n", prop, tier, seed, total.Evaluations, total.Relevant, len(shapes), wall.Seconds())
 	if exit == 0 {
 		if len(inconclusive) > 0 {
